@@ -335,4 +335,90 @@ def r16_5(run):
     run.floor(100)
 
 
-RULES = [("R16.1", r16_1), ("R16.2", r16_2), ("R16.3", r16_3), ("R16.4", r16_4), ("R16.5", r16_5)]
+FRESH_CALLS = ("copy.deepcopy", "copy.copy", "builtins.dict", "builtins.list", "builtins.set", "builtins.tuple", "builtins.sorted")
+VIEW_ATTRS = {"values", "loc", "iloc", "at", "iat", "index", "columns", "T"}
+SHARED_KEYS = ("std_types", "fluid", "user_pf_options", "component_list", "controller")
+
+
+def origins(t):
+    """objects a mutable term may alias (copies and fresh containers have none)"""
+    h = t[0]
+    if h == "upd":
+        yield from origins(t[1])
+    elif h == "ite":
+        yield from origins(t[2])
+        yield from origins(t[3])
+    elif h == "idx":
+        for o in origins(t[1]):
+            yield ("idx", o, t[2])
+    elif h == "attr":
+        if t[2] in VIEW_ATTRS:
+            for o in origins(t[1]):
+                yield ("attr", o, t[2])
+        else:
+            yield t
+    elif h == "proj":
+        for o in origins(t[1]):
+            yield ("proj", o, t[2])
+    elif h == "call":
+        fn = t[1]
+        if fn[0] == "x" and (fn[1] in FRESH_CALLS or fn[1].startswith(("numpy.", "pandas."))):
+            return
+        if fn[0] == "attr" and fn[2] in ("copy", "deepcopy", "astype", "tolist", "to_numpy", "keys", "items"):
+            return
+        if fn[0] == "attr" and fn[2] in ("get", "setdefault", "pop") and t[2]:
+            for o in origins(fn[1]):
+                yield ("idx", o, (t[2][0],))
+            return
+        yield t
+    elif h in ("n", "loop", "carried", "phi", "b"):
+        yield t
+
+
+def r16_6(run):
+    """a create call changes the addressed table(s) only: nothing reachable from a create function stores into (or calls a
+    mutating method on) an object that aliases the net's standard-type library, fluid or options"""
+    from ..arrnf import ANF, C, contains, key as tkey, show as tshow, Unsupported as AUnsupported
+    ix = run.index
+    helpers = set()
+    for mod in ("pandapipes.std_types.std_types", "pandapipes.component_models.component_toolbox"):
+        for g in ix.module(mod).functions.values():
+            helpers.add(g.qualname)
+    # functions whose purpose is to edit the library are not create functions of elements
+    helpers -= {q for q in helpers if q.rsplit(".", 1)[1] in ("create_std_type", "create_std_types", "delete_std_type", "change_std_type",
+                                                              "add_basic_std_types", "create_pump_std_type", "create_dynamic_valve_std_type",
+                                                              "copy_std_types", "add_new_component", "init_results_element")}
+    mut = {"update", "pop", "clear", "setdefault", "append", "extend", "insert", "remove", "popitem", "sort", "fill", "__setitem__"}
+    n = 0
+    for f in create_functions(ix):
+        run.analysed(f)
+        try:
+            r = ANF(ix, f, inline=helpers, strip=False, param_alias={f.params()[0]: "net"}).run()
+        except AUnsupported as e:
+            raise AnalysisError("create function %s not analysable: %s" % (f.name, e))
+        shared = [("idx", ("n", "net"), (C(k),)) for k in SHARED_KEYS]
+        bad = []
+        sites = 0
+        for e in r.events:
+            tgt = None
+            if e.kind == "store":
+                tgt = e.base
+            elif e.kind == "call" and e.fn[0] == "attr" and e.fn[2] in mut:
+                tgt = e.fn[1]
+            if tgt is None:
+                continue
+            sites += 1
+            for o in origins(tgt):
+                if any(contains(o, s_) for s_ in shared):
+                    bad.append((e, o))
+        n += sites
+        run.ob("%s|no-write-into-shared-net-objects" % f.name, not bad,
+               "%s (with its std-type / toolbox helpers inlined) stores only into fresh objects or the addressed tables, never into "
+               "net.std_types / net.fluid / net.user_pf_options (%d store / mutator sites)" % (f.name, sites),
+               run.where(f, bad[0][0].node) if bad else run.where(f, f.node),
+               detail="; ".join("%s aliases %s" % (tshow(e.base if e.kind == "store" else e.fn[1])[:120], tshow(o)[:80]) for e, o in bad[:3]))
+    run.stat("store_sites_in_create_functions", n)
+    run.floor(25)
+
+
+RULES = [("R16.1", r16_1), ("R16.2", r16_2), ("R16.3", r16_3), ("R16.4", r16_4), ("R16.5", r16_5), ("R16.6", r16_6)]
